@@ -150,7 +150,9 @@ pub fn eval_doc(doc: &Doc) -> (Vec<Failure>, u64) {
             Some(frags) => {
                 let range_ok = got.get("range") == Some(&doc.tok_range(o.tok));
                 let text = got["contents"]["value"].as_str().unwrap_or("");
-                let content = contains_in_order(text, &frags);
+                // (no comment text of the generator contains a CR: one in the answer is a line
+                // terminator that leaked into the documentation)
+                let content = contains_in_order(text, &frags).and_then(|_| if text.contains('\r') { Err(format!("the documentation contains a carriage return (a line end of the document): {:?}", text)) } else { Ok(()) });
                 if !range_ok && fails.len() < 40 {
                     fails.push(Failure {
                         key: format!("hover:{}{}:range", kind, builtin),
@@ -160,7 +162,7 @@ pub fn eval_doc(doc: &Doc) -> (Vec<Failure>, u64) {
                 }
                 if let Err(e) = content {
                     if fails.len() < 40 {
-                        let what = if e.contains("doc") && e.contains('$') && !frags.iter().take(frags.len() - 1).any(|f| !text.contains(f.as_str())) { "doc" } else { "signature" };
+                        let what = if e.contains("carriage return") { "doc-with-line-terminator" } else if e.contains("doc") && e.contains('$') && !frags.iter().take(frags.len() - 1).any(|f| !text.contains(f.as_str())) { "doc" } else { "signature" };
                         fails.push(Failure {
                             key: format!("hover:{}{}:{}", kind, builtin, what),
                             case: doc.case(json!({"method": "textDocument/hover", "position": [pos.0, pos.1], "expected_range": doc.tok_range(o.tok), "expected_fragments": frags})),
